@@ -93,7 +93,11 @@ theorem mono1 (P : Prog) : ∀ f, Mono1 P f := by
         | some vs =>
           rw [ih.args _ _ _ _ _ ha]; rw [ha] at h
           simp only at h ⊢
-          cases tgt with
+          by_cases hL : L.contains tgt = true
+          · rw [if_pos hL] at h; cases h
+          rw [if_neg hL] at h ⊢
+          generalize resolveCall G tgt = tgt' at h ⊢
+          cases tgt' with
           | unresolved => simp at h
           | known key => exact h
           | user g =>
@@ -101,6 +105,7 @@ theorem mono1 (P : Prog) : ∀ f, Mono1 P f := by
             cases hg : P.find g with
             | none => simp [hg] at h
             | some d => rw [hg] at h; simp only at h ⊢; exact ih.call _ _ _ h
+      | callKw tgt args => simp [evalExpr] at h
       | unsupported => simp [evalExpr] at h
     · -- args
       intro G L env es vs h
